@@ -199,7 +199,27 @@ def grid(kind, n, mu, lam, tau):
     if kind == "lognormal":
         nd = statistics.NormalDist()
         return [math.exp(mu + lam * nd.inv_cdf(p)) for p in ps]
+    if kind == "gev":       # tau = shape alpha
+        return [mu + math.expm1(-tau * math.log(-math.log(p))) / (tau * lam) if abs(tau) > 1e-12 else mu - math.log(-math.log(p)) / lam for p in ps]
+    if kind == "gamma": return [mu + gamma_quantile(tau, p) / lam for p in ps]
+    if kind == "sxp": return [mu + gamma_quantile(1.0 / tau, p) ** (1.0 / tau) / lam for p in ps]
     raise ValueError(kind)
+
+
+_GQ = {}
+def gamma_quantile(a, p):
+    """y with P(a, y) = p (bisection on the regularised incomplete gamma function)"""
+    key = (a, p)
+    if key in _GQ: return _GQ[key]
+    lo, hi = 0.0, max(1.0, a)
+    while gammp(a, hi) < p: hi *= 2.0
+    for _ in range(200):
+        mid = 0.5 * (lo + hi)
+        if gammp(a, mid) < p: lo = mid
+        else: hi = mid
+        if hi - lo <= 1e-15 * hi: break
+    _GQ[key] = 0.5 * (lo + hi)
+    return _GQ[key]
 
 
 class C11(Prop):
@@ -212,6 +232,7 @@ class C11(Prop):
         "sorted_flag_sound", "collect_then_tail", "tail_query_agrees", "rank_query_agrees", "tailmass_query_agrees",
         "settail_agrees_with_raw_data", "settailbymass_agrees_with_raw_data", "declare_censoring_agrees", "lognormal_fit_closed_form", "lognormal_mu_is_maximiser",
         "gumbel_profile_concave", "gumbel_complete_fit_near_optimal", "gumbel_censored_fit_near_optimal",
+        "cg_return_means_stopping_rule", "cg_hangs_only_in_brent", "weibull_sxp_fit_post", "truncated_gumbel_fit_post", "cg_fit_location_is_minimum",
         "exp_fit_closed_form", "exp_fit_is_maximiser", "gumbel_mu_is_maximiser", "lawless_is_derivative", "gumbel_complete_fit_stationary",
         "gumbel_censored_fit_stationary", "gumbel_loc_fits_closed_form", "gumbel_fits_terminate")]
     claimed = True
@@ -409,7 +430,7 @@ class C11(Prop):
     # ---------------------------------------------------------------------------------------------
     # generators
     # ---------------------------------------------------------------------------------------------
-    def fit_ops(self, xs, rng, kinds=None, lam0=None):
+    def fit_ops(self, xs, rng, kinds=None, lam0=None, mu_known=None):
         d = dbits
         ops = []
         kinds = kinds or ["exp", "expscale", "lognormal", "gumbel", "gumbelloc", "gumbelcens", "gumbelcensloc", "gumbeltrunc", "gamma", "weibull", "sxp"]
@@ -422,7 +443,7 @@ class C11(Prop):
             elif k == "gumbel": ops.append("fit kind=gumbel")
             elif k == "gumbelloc": ops.append("fit kind=gumbelloc a=%s" % d((lam0 * rng.choice([0.5, 1.0, 1.0, 2.0]) if lam0 else rng.choice([0.1, 0.693, 1.0, 3.0])) if rng else 0.693))
             elif k == "gumbeltrunc": ops.append("fit kind=gumbeltrunc a=%s" % d(lo))
-            elif k == "gamma": ops.append("fit kind=gamma a=%s" % d(lo - 0.5 * (max(xs) - lo) / max(2, len(xs)) if xs else 0.0))
+            elif k == "gamma": ops.append("fit kind=gamma a=%s" % d(mu_known if mu_known is not None else (lo - 0.5 * (max(xs) - lo) / max(2, len(xs)) if xs else 0.0)))
             elif k in ("weibull", "sxp", "gev"): ops.append("fit kind=%s" % k)
         return ops
 
@@ -565,7 +586,8 @@ class C11(Prop):
             if kind == "gev": tau = rng.choice([-0.2, 0.1, 0.3])       # shape alpha
             if kind == "gumbel" and rng.random() < 0.85:               # mostly inside exp(-lambda*x)'s normal range (the fit is not shift-invariant)
                 mu = rng.choice([-20.0, 0.0, 5.0, 100.0]) if lam < 10 else rng.choice([-5.0, 0.0, 5.0])
-            src = "grid" if (kind in ("exp", "gumbel", "weibull", "lognormal") and rng.random() < 0.5) else "sample"
+            src = "grid" if rng.random() < 0.5 else "sample"
+            if src == "grid" and kind in ("gamma", "sxp") and n > 1000: n = 1000      # (pure-python quantiles)
             if src == "sample":
                 specs.append((kind, n, rng.randrange(1, 2**31), mu, lam, tau))
             plans.append((kind, n, mu, lam, tau, src))
@@ -602,7 +624,9 @@ class C11(Prop):
             kinds = {"exp": ["exp", "expscale", "gumbel", "weibull", "sxp"], "gumbel": ["gumbel", "gumbelloc", "gumbelcens", "gumbelcensloc", "gumbeltrunc", "exp"],
                      "weibull": ["weibull", "exp", "sxp", "gamma"], "lognormal": ["lognormal", "exp", "gumbel"], "gamma": ["gamma", "exp", "weibull"],
                      "sxp": ["sxp", "exp", "weibull"], "gev": ["gev", "gumbel"]}[kind]
-            ops += [o for o in self.fit_ops(xs, rng, kinds, meta["lambda"] if kind == "gumbel" else None) if "gumbelcens" not in o and "gumbeltrunc" not in o
+            # esl_gam_FitComplete takes the location as known: on the law's own untouched data pass the true one
+            mk = meta["mu"] if (kind == "gamma" and meta["mod"] == "none" and all(x > meta["mu"] for x in xs)) else None
+            ops += [o for o in self.fit_ops(xs, rng, kinds, meta["lambda"] if kind == "gumbel" else None, mk) if "gumbelcens" not in o and "gumbeltrunc" not in o
                     and not (n > 1000 and kv(o).get("kind") in CG_KINDS)]
             cases.append({"name": "fit%d-%s-%s-n%d-%s" % (i, kind, src, n, meta["mod"]), "ops": ops, "sticky": 1, "meta": meta})
             if kind == "gumbel" and len(xs) >= 3:
@@ -964,7 +988,9 @@ class C11(Prop):
                 # (Gumbel: only where exp(-lambda*x) stays inside the binary64 range - the fit is not shift-invariant numerically, L0)
                 if kind == "gamma" and meta.get("law") == "gamma" and meta.get("mod") == "none" and n >= 100 and all(x > fbits(a["a"]) for x in xs):
                     return F("gamma fit failed with %s on %d values from esl_gam_Sample(mu=%r, lambda=%r, tau=%r)" % (st, n, meta.get("mu"), meta.get("lambda"), meta.get("tau")))
-                if (meta.get("src") == "grid" and meta.get("mod") == "none" and n >= 100 and kind == meta.get("law")
+                # (GEV is not among the fits of the property statement; with its fixed absolute step sizes it answers the
+                #  documented eslENOHALT on small-scale data, e.g. the grid of GEV(lambda=50, alpha=0.3): not demanded)
+                if (meta.get("src") == "grid" and meta.get("mod") == "none" and n >= 100 and kind == meta.get("law") and kind != "gev"
                         and not (kind == "gumbel" and any(abs(meta["lambda"] * x) > 600 for x in xs))):
                     return F("%s fit failed with %s on the exact %d-point quantile grid of %s(mu=%r, lambda=%r, tau=%r)" % (kind, st, n, kind, meta.get("mu"), meta.get("lambda"), meta.get("tau")))
                 continue
@@ -983,6 +1009,8 @@ class C11(Prop):
 
     def check_fit(self, kind, a, xs, ps, meta):
         n = len(xs)
+        rec = self.check_recovery(kind, a, xs, ps, meta)
+        if rec: return rec
         d1 = 1e-3
         def slack(v): return 1e-9 * (abs(v) + n) + 1e-12
         if kind == "exp":
@@ -1102,8 +1130,37 @@ class C11(Prop):
                     return "weibull fit on the exact quantile grid of (lambda=%r,tau=%r) recovered (%r,%r)" % (meta["lambda"], meta["tau"], p0[0], p0[1])
         return None
 
+    # tolerated relative error of (scale, shape) on the exact quantile grid of the family itself, n >= 300 (calibrated: about
+    # 3x the largest error seen on the clean tree over the parameter grid; the discretisation error of a 300-point grid with the
+    # location pinned to the smallest point is a few per cent for the peaked laws)
+    REC_TOL = {"exp": (0.02,), "gumbel": (0.02, 0.02), "lognormal": (0.01, 0.02), "weibull": (0.30, 0.30), "gamma": (0.06, 0.06),
+               "sxp": (0.08, 0.06), "gev": (0.15, 0.12, 0.08)}
+
+    def check_recovery(self, kind, a, xs, ps, meta):
+        n = len(xs)
+        if not (meta.get("src") == "grid" and meta.get("mod") == "none" and n >= 300 and kind == meta.get("law")): return None
+        mu0, lam0, tau0 = meta["mu"], meta["lambda"], meta["tau"]
+        if kind == "exp": errs = [abs(ps[1] / lam0 - 1)]
+        elif kind == "gumbel":
+            if any(abs(lam0 * x) > 600 for x in xs): return None
+            errs = [abs(ps[1] / lam0 - 1), abs(ps[0] - mu0) * lam0]
+        elif kind == "lognormal": errs = [abs(ps[0] - mu0) / max(1.0, abs(mu0)), abs(ps[1] / lam0 - 1)]
+        elif kind == "weibull": errs = [abs(ps[1] / lam0 - 1), abs(ps[2] / tau0 - 1)]
+        elif kind == "gamma": errs = [abs(ps[0] / lam0 - 1), abs(ps[1] / tau0 - 1)]
+        elif kind == "sxp": errs = [abs(ps[1] / lam0 - 1), abs(ps[2] / tau0 - 1)]
+        elif kind == "gev": errs = [abs(ps[0] - mu0) * lam0, abs(ps[1] / lam0 - 1), abs(ps[2] - tau0)]
+        else: return None
+        cal = self.__dict__.setdefault("_rec", {})
+        key = "%s" % kind
+        cal[key] = [max(x, y) for x, y in zip(cal.get(key, [0.0] * len(errs)), errs)]
+        tol = self.REC_TOL[kind]
+        if any(e > t for e, t in zip(errs, tol)):
+            return "%s fit on the exact %d-point quantile grid of (mu=%r, lambda=%r, tau/alpha=%r) returned %r" % (kind, n, mu0, lam0, tau0, ps)
+        return None
+
     def extra_evidence(self, ctx):
-        return {"input_distribution": getattr(self, "_dist", {}), "optimiser_fit_max_relative_logL_gap": getattr(self, "_calib", {})}
+        return {"input_distribution": getattr(self, "_dist", {}), "optimiser_fit_max_relative_logL_gap": getattr(self, "_calib", {}),
+                "max_recovery_error_on_quantile_grids": getattr(self, "_rec", {})}
 
 
 SPEC = C11()
